@@ -73,10 +73,16 @@ def trusted_sub(I, st, fr, a, b):
     return None
 
 
-def _kahn_var(t, name):
-    if isinstance(t, tuple) and len(t) == 2 and t[0] == "v" and isinstance(t[1], tuple) and len(t[1]) >= 2 and t[1][0] == "loopvar":
-        nm = t[1][1]
-        return isinstance(nm, tuple) and nm[0].endswith("strict::graph::kahn") and nm[-1] == name
+def _kahn_var(t, role):
+    """Is t the loop-carried variable that plays `role` in a loop recognised as kahn's (loop_specs.KAHN_ROLES: roles are
+    decided from the values at loop entry, not from the names of the locals)?"""
+    import loop_specs
+    for roles in loop_specs.KAHN_ROLES.values():
+        v = roles.get(role)
+        if isinstance(v, VSeq) and v.t == t:
+            return True
+        if isinstance(v, VNat) and isinstance(t, Poly) and v.p == t:
+            return True
     return False
 
 
@@ -87,9 +93,7 @@ def trusted_bound(st, t, B):
             return "LAYER-TRUSTED"
     # the same array after one more step of the loop (order[frontier := depth]), e.g. when the loop exits after its body
     if t[0] == "sac" and _kahn_var(t[1], "order") and _kahn_var(t[2], "frontier"):
-        d = as_poly(t[3]).atoms()
-        if len(d) == 1 and isinstance(next(iter(d)), tuple) and next(iter(d))[0] == "loopvar" and next(iter(d))[1][-1] == "depth" \
-                and st.ge(B, t_len(t[1])):
+        if _kahn_var(as_poly(t[3]), "depth") and st.ge(B, t_len(t[1])):
             return "LAYER-TRUSTED"
     return None
 
